@@ -6,6 +6,7 @@
 From BU Require Import Lib.Bytes Lib.PolyMod Lib.Sha256 Gen.Xbchutil Gen.Nets
   Base58.Base58 CashAddr.CashAddr Address.Bits Address.BitsProofs Address.Address Address.CashProofs
   Address.AddressProofs Address.DecodeProofs Address.LegacyProofs Address.RejectProofs Address.Spec Address.Final.
+From BU Require Import Gen.Kernels Tie.KernelsTie.
 
 (* accepted => the string is, up to the documented normalisations, the address's own string *)
 Theorem C02_decode_canonical : forall (D : Deps) (net : Nets.net) (s : list N) (a : Addr D),
@@ -106,3 +107,9 @@ Example C02_example :
   exists p, convert_bits d 8 5 true = Ok p /\ (forall v h, d = v :: h -> ~ shape_ok v (length h)) /\
     is_ok (Final.dec Final.D0 mainnet (map chr (p ++ create_checksum (cash_prefix mainnet) p))) = false.
 Proof. exact Final.reserved_bit_witness. Qed.
+
+(* the checksum register the theorems above speak about is the translation of the Go source of
+   polyMod (harness/cmd/gotrans -> Gen/Kernels.v): a structural change of polyMod breaks this *)
+Theorem C02_polymod_is_translated_source : forall v, Bytes v -> Kernels.polyMod v = CashAddr.polymod v.
+Proof. exact polyMod_tie. Qed.
+Print Assumptions C02_polymod_is_translated_source.
